@@ -90,7 +90,7 @@ def evalConds (sub : SSub γ) (sc : Script) (x : Ctx) : List Cond → SSt γ →
 /-- `Transition._change_state` as inherited (the `super()` call of the mixin) -/
 def changeStateBase (sub : SSub γ) (sc : Script) (cfg : Cfg) (x : Ctx) (t : Trans) (dst : Nat) (s : SSt γ) :
     RS γ Unit :=
-  match cfg.state? t.source with
+  match cfg.state? (s.base.stateOf x.model) with
   | none => .err .valueError s
   | some src =>
     (callbacks sub sc .onExit x src.onExit s).bind fun _ s1 =>
